@@ -348,7 +348,7 @@ func (e *Eff) step(st *effFn) bool {
 					for a := range locs {
 						ch = st.mut(a, x.Pos()) || ch
 					}
-					ch = e.copyStruct(st, locs, st.valRoots(x.Val), x.Val.Type(), x.Pos(), 0) || ch
+					ch = e.copyStructSkipping(st, locs, st.valRoots(x.Val), x.Val.Type(), x.Pos(), overriddenFields(x)) || ch
 					break
 				}
 				var vals pset
@@ -399,6 +399,160 @@ func isStructVal(t types.Type) bool {
 		return true
 	}
 	return false
+}
+
+// copyStructSkipping is copyStruct for a struct, leaving out the top-level fields in skip.
+func (e *Eff) copyStructSkipping(st *effFn, dst, src pset, t types.Type, pos token.Pos, skip map[int]bool) bool {
+	u, ok := t.Underlying().(*types.Struct)
+	if !ok || len(skip) == 0 {
+		return e.copyStruct(st, dst, src, t, pos, 0)
+	}
+	ch := false
+	for i := 0; i < u.NumFields(); i++ {
+		ft := u.Field(i).Type()
+		if !pointerLike(ft) || skip[i] {
+			continue
+		}
+		el := fieldElem(t, i)
+		d2, s2 := e.ext(dst, el), e.ext(src, el)
+		if isStructVal(ft) {
+			ch = e.copyStruct(st, d2, s2, ft, pos, 1) || ch
+		} else {
+			ch = st.store(d2, st.load(s2), pos) || ch
+		}
+	}
+	return ch
+}
+
+// overriddenFields: `*c = *p` into a struct the function has just allocated, followed by stores that replace some of
+// the copied fields before the function returns ("shallow copy, then the deep parts"). A field counts as replaced when
+// a later store to c.f lies in a block that every return behind the copy passes through, or in the non-nil arm of a
+// test `p.f != nil` of the very field it was copied from, that test being passed by every return (if p.f is nil there
+// is nothing to share). What the copy put there is dead by the time anybody can see c.
+func overriddenFields(cp *ssa.Store) map[int]bool {
+	al, ok := cp.Addr.(*ssa.Alloc)
+	if !ok {
+		return nil
+	}
+	var srcPtr ssa.Value
+	if ld, ok := cp.Val.(*ssa.UnOp); ok && ld.Op == token.MUL {
+		srcPtr = ld.X
+	}
+	f := cp.Parent()
+	cb := cp.Block()
+	var rets []*ssa.BasicBlock
+	for _, b := range f.Blocks {
+		if _, ok := b.Instrs[len(b.Instrs)-1].(*ssa.Return); ok && cb.Dominates(b) {
+			rets = append(rets, b)
+		}
+	}
+	if len(rets) == 0 {
+		return nil
+	}
+	passedByAll := func(b *ssa.BasicBlock) bool {
+		for _, r := range rets {
+			if !b.Dominates(r) {
+				return false
+			}
+		}
+		return true
+	}
+	after := func(ins ssa.Instruction) bool {
+		b := ins.Block()
+		if b == cb {
+			for _, x := range cb.Instrs {
+				if x == ssa.Instruction(cp) {
+					return true
+				}
+				if x == ins {
+					return false
+				}
+			}
+		}
+		return cb.Dominates(b)
+	}
+	// the struct must not leave the function's hands before the replacing store: only field addresses and loads
+	var escapes []ssa.Instruction
+	for _, r := range *al.Referrers() {
+		switch x := r.(type) {
+		case *ssa.FieldAddr, *ssa.UnOp, *ssa.DebugRef, *ssa.Return:
+		case *ssa.Store:
+			if x.Addr != ssa.Value(al) {
+				escapes = append(escapes, x) // the pointer itself is stored somewhere
+			}
+		default:
+			escapes = append(escapes, r)
+		}
+	}
+	before := func(a, b ssa.Instruction) bool {
+		if a.Block() == b.Block() {
+			for _, x := range a.Block().Instrs {
+				if x == a {
+					return true
+				}
+				if x == b {
+					return false
+				}
+			}
+		}
+		return a.Block().Dominates(b.Block())
+	}
+	out := map[int]bool{}
+	for _, r := range *al.Referrers() {
+		fa, ok := r.(*ssa.FieldAddr)
+		if !ok {
+			continue
+		}
+		for _, r2 := range *fa.Referrers() {
+			st, ok := r2.(*ssa.Store)
+			if !ok || st.Addr != ssa.Value(fa) || !after(st) {
+				continue
+			}
+			hidden := true
+			for _, e := range escapes {
+				if !before(st, e) {
+					hidden = false // somebody may have seen the struct before the field was replaced
+				}
+			}
+			if !hidden {
+				continue
+			}
+			b := st.Block()
+			if passedByAll(b) {
+				out[fa.Field] = true
+				continue
+			}
+			// non-nil arm of a test of the source field
+			if len(b.Preds) == 1 && srcPtr != nil {
+				pb := b.Preds[0]
+				if iff, ok := pb.Instrs[len(pb.Instrs)-1].(*ssa.If); ok && passedByAll(pb) {
+					if bo, ok := iff.Cond.(*ssa.BinOp); ok && (bo.Op == token.NEQ || bo.Op == token.EQL) {
+						for _, pr := range [][2]ssa.Value{{bo.X, bo.Y}, {bo.Y, bo.X}} {
+							if !isNilConst(pr[1]) {
+								continue
+							}
+							ld, ok := pr[0].(*ssa.UnOp)
+							if !ok || ld.Op != token.MUL {
+								continue
+							}
+							sfa, ok := ld.X.(*ssa.FieldAddr)
+							if !ok || sfa.Field != fa.Field || sfa.X != srcPtr {
+								continue
+							}
+							nonNil := pb.Succs[0]
+							if bo.Op == token.EQL {
+								nonNil = pb.Succs[1]
+							}
+							if nonNil == b {
+								out[fa.Field] = true
+							}
+						}
+					}
+				}
+			}
+		}
+	}
+	return out
 }
 
 // copyStruct models *dst = v for a struct (or array) value v named by the locations src.
